@@ -53,7 +53,7 @@ fn open(cfg: &Cfg, fs: &SimFs) -> Result<Arc<DB>, Fail> {
 }
 
 fn small_cfg(rng: &mut Prng) -> Cfg {
-    Cfg { memtable: *rng.pick(&[256usize, 512, 1024]), file: *rng.pick(&[512u64, 1024, 4096]), block: *rng.pick(&[64usize, 256]), reuse: true, bloom_bits: 10 }
+    Cfg { memtable: *rng.pick(&[256usize, 512, 1024]), file: *rng.pick(&[512u64, 1024, 4096]), block: *rng.pick(&[64usize, 256]), reuse: true, bloom_bits: 10, share: false }
 }
 
 fn close(db: Arc<DB>) -> Option<Fail> {
